@@ -142,7 +142,7 @@ func init() {
 			mw := []string{"delivered-from-bytes", "rejected", "negative-index-decoded"}
 			return []HarnessSpec{
 				{Name: "reader-envelope", Pkg: "remote", Func: "ZZ_C16_Reader", Params: pm("M", tierSel(tier, 2, 3)),
-					Witnesses: []string{"delivered", "empty-type-name"}, Deadline: 60 * time.Minute},
+					Witnesses: []string{"delivered", "empty-type-name", "type-name-of-a-service"}, Deadline: 60 * time.Minute},
 				{Name: "decoder-on-arbitrary-bytes", Pkg: "remote", Func: "ZZ_C16_Bytes", Params: pm("N", tierSel(tier, 5, 6)),
 					Witnesses: []string{"accepted", "accepted-with-message", "rejected"}, Deadline: 120 * time.Minute},
 				{Name: "message-body-bytes", Pkg: "remote", Func: "ZZ_C16_MsgBytes", Params: pm("K", tierSel(tier, 6, 7)),
@@ -150,9 +150,9 @@ func init() {
 			}
 		},
 		Bounds: func(tier string) string {
-			return fmt.Sprintf("(a) one decoded envelope: 0..2 type names (from {two known, one unknown}), 0..2 targets (two recording actors, an unregistered id, or the node's own stream-writer actor towards another peer, which is registered under a well-known id), 0..2 senders, 1..%d messages whose TargetIndex/SenderIndex/TypeNameIndex are unconstrained symbolic int32; (b) Envelope.UnmarshalVT (+ PID/Message.UnmarshalVT, skip) on every byte string of length 0..%d (each byte symbolic), followed by streamReader.Receive on whatever it accepts; (c) a well-formed table prefix (1..2 type names, 2 targets, 0..1 sender, real MarshalVT) followed by one Messages field with 0..%d symbolic body bytes, decoded and fed to the reader", tierSel(tier, 2, 3), tierSel(tier, 5, 6), tierSel(tier, 6, 7))
+			return fmt.Sprintf("(a) one decoded envelope: 0..2 type names (from {remote.TestMessage, actor.PID, one name no message type answers to: unregistered, empty, the name of a field or the name of a service of the module's .proto files}), 0..2 targets (two recording actors, an unregistered id, or the node's own stream-writer actor towards another peer, which is registered under a well-known id), 0..2 senders, 1..%d messages whose TargetIndex/SenderIndex/TypeNameIndex are unconstrained symbolic int32; (b) Envelope.UnmarshalVT (+ PID/Message.UnmarshalVT, skip) on every byte string of length 0..%d (each byte symbolic), followed by streamReader.Receive on whatever it accepts; (c) a well-formed table prefix (1..2 type names, 2 targets, 0..1 sender, real MarshalVT) followed by one Messages field with 0..%d symbolic body bytes, decoded and fed to the reader", tierSel(tier, 2, 3), tierSel(tier, 5, 6), tierSel(tier, 6, 7))
 		},
-		Outside:     []string{"byte strings longer than the bounds (a delivery needs >= 6 bytes: whole-buffer deliveries are reached only in the thorough tier; the message-body harness reaches them in both)", "DRPC framing in front of the envelope bytes", "payload decoding: the Deserializer is a stub (fails for the unknown type name in (a), numbers its calls in (b)/(c))", "more than one envelope per stream"},
+		Outside:     []string{"byte strings longer than the bounds (a delivery needs >= 6 bytes: whole-buffer deliveries are reached only in the thorough tier; the message-body harness reaches them in both)", "DRPC framing in front of the envelope bytes", "payload decoding in (b)/(c): the Deserializer is a stub that numbers its calls; in (a) the real ProtoSerializer runs over the protobuf runtime model (GlobalTypes, GlobalFiles lookups, proto.Unmarshal = the generated UnmarshalVT + UTF-8 check; dynamicpb and methods on descriptors are not modelled)", "more than one envelope per stream"},
 		Assumptions: seqAssume("stream = stub returning the envelope then an error; engine = bare engine with two recording processes (actor harness helper)"),
 	})
 	reg(&PropSpec{
